@@ -320,7 +320,7 @@ def nodupInts : List Int → Bool
     `some (e?, verified)`: a signature equal to `e • G` (as marshalled point `pt`) and the result
     of `VerifyG1` under the group key `a0 • G2`.
     If at least `thr ≥ 1` non-skipped entries exist, the first `thr` of them have distinct
-    indices and are correct shares of a polynomial of degree `< thr` with secret `a0`, then the
+    indices (below `R`, as every Go `int` is) and are correct shares of a polynomial of degree `< thr` with secret `a0`, then the
     call must return the group signature `(a0·m) • G`, and it must verify. Fewer than `thr`
     non-skipped entries must give the error. -/
 def holdsRec (thr : Int) (es : List Entry) (coefs : List Nat) (m : Nat)
@@ -330,19 +330,19 @@ def holdsRec (thr : Int) (es : List Entry) (coefs : List Nat) (m : Nat)
   else if (valid.length : Int) < thr then obs.isNone
   else
     let used := valid.take thr.toNat
-    if nodupInts (used.map (·.1)) && used.all (correctShare coefs m)
-        && decide ((coefs.length : Int) ≤ thr) then
+    if nodupInts (used.map (·.1)) && used.all (fun s => decide (s.1 < (R : Int)))
+        && used.all (correctShare coefs m) && decide ((coefs.length : Int) ≤ thr) then
       match obs with
       | some (pt, v) => v && pt == g1OfExp (coefs.headD 0 * m)
       | none => false
     else true
 
 /-- A crash (nil dereference after `ModInverse` fails) is outside the property only when the
-    shares that are used carry a duplicate index. -/
+    shares that are used carry a duplicate index (or an index `≥ R`, impossible for a Go `int`). -/
 def holdsRecCrashOk (thr : Int) (es : List Entry) : Bool :=
   let valid := es.filterMap Entry.valid?
   let used := if thr < 1 then valid else valid.take thr.toNat
-  !nodupInts (used.map (·.1))
+  !nodupInts (used.map (·.1)) || used.any (fun s => decide ((R : Int) ≤ s.1))
 
 /-- "A share that does not verify under its member's public key share is never used":
     an accepted share is the unmarshalled message content, the sender has a public key share,
